@@ -156,11 +156,12 @@ def _multi(rng):
     nq = rng.choice([1, 2, 2, 3])
     nv = rng.choice([1, 2, 2, 3])
     vs = ["x", "y", "z"][:nv]
-    kinds, objs, doms = G.gen_world(rng, vs, falsy=False)
+    falsy = rng.random() < 0.4      # falsy values (0, False, empty collections) in domains and attributes
+    kinds, objs, doms = G.gen_world(rng, vs, falsy=falsy)
     G.EXT["index_ok"] = False
     queries = []
     for _ in range(nq):
-        cond = G.gen_cond(rng, vs, kinds, rng.randrange(0, 3), [], 1, allow_q=False)
+        cond = G.gen_cond(rng, vs, kinds, rng.randrange(0, 3), [], 0 if falsy else 1, allow_q=False)
         used = [v for v in vs if v in G.c_allvars(cond)] or [vs[0]]
         sel = [("var", v) for v in rng.sample(used, rng.randrange(1, len(used) + 1))]
         queries.append({"sel": sel, "cond": cond})
